@@ -264,6 +264,13 @@ func registerIntrinsics(M map[string]Model) {
 		}
 		return m.ctx.Const(uint64(int64(v)), 64)
 	})
+	I("ParamOr", func(m *Machine, fr *Frame, a []Value) Value {
+		name := m.mustGoString(a[0], "param name")
+		if v, ok := m.cfg.Params[name]; ok {
+			return m.ctx.Const(uint64(int64(v)), 64)
+		}
+		return a[1]
+	})
 	I("Phase", func(m *Machine, fr *Frame, a []Value) Value {
 		m.phase = m.mustGoString(a[0], "phase")
 		return nil
